@@ -168,6 +168,83 @@ def u1_units(F, r):
         raise AnchorError(f"only {n} unit-resolved products found")
 
 
+TC = "vrp_core::models::problem::costs::TransportCost::"
+EXACT_ONLY = ("vrp_pragmatic::format::solution", "vrp_pragmatic::checker", "vrp_core::construction::enablers::schedule_update", "vrp_core::models::solution",
+              "vrp_core::construction::features::transport", "vrp_core::construction::enablers::departure_time")
+DROPPING_TYPES = ("adapters::filter::", "adapters::filter_map::", "adapters::skip::", "adapters::take::", "adapters::skip_while::", "adapters::take_while::",
+                  "adapters::flatten::", "adapters::step_by::", "adapters::map_while::", "adapters::peekable::")
+
+
+def r1_exact_routing_only(F, r):
+    """reported / verified / enforced schedules are computed with the exact routing queries, never the time-independent `_approx` variants"""
+    n = 0
+    for fid, fn in sorted(F.fns.items()):
+        if "::promoted[" in fid:
+            continue
+        mod = F.fns.get(F.root_of(fid), fn)["module"]
+        if not mod.startswith(EXACT_ONLY):
+            continue
+        for bi, t in mir.calls(fn):
+            if not t["callee"].startswith(TC):
+                continue
+            n += 1
+            last = t["callee"].split("::")[-1]
+            if last.endswith("_approx"):
+                r.fail(f"{util.short_fn(F.root_of(fid))}: {last}", f"`{last}` ignores the departure time (first matrix of a time-dependent profile): a reported / checked / enforced value no longer equals "
+                       "what the routing data gives for the actual departure", F.loc(fid, t["ln"]))
+    if n < 10:
+        raise AnchorError(f"only {n} routing queries found in schedule/report code")
+    r.ok("exact routing queries", f"{n} TransportCost queries in {len(EXACT_ONLY)} report/verify/schedule modules, none approximate")
+
+
+def l1_leg_queries_agree(F, r):
+    """within one body of the solution writer all routing queries of a leg use the same (from, to, departure)"""
+    root = F.find1("solution_writer::create_tour")
+    n = 0
+    for g in F.family(root):
+        fn = F.fns[g]
+        qs = [(bi, t) for bi, t in mir.calls(fn) if t["callee"] in (TC + "distance", TC + "duration", TC + "cost") and len(t["args"]) >= 5]
+        if not qs:
+            continue
+        sig = {}
+        for bi, t in qs:
+            key = tuple(mir.expr(fn, a) for a in t["args"][2:5])
+            sig.setdefault(key, []).append(t)
+            n += 1
+        kinds = {t["callee"].split("::")[-1] for _, t in qs}
+        if len(sig) == 1 and {"distance", "duration"} <= kinds:
+            r.ok(f"{util.short_fn(g)}: leg queries", f"{len(qs)} queries ({', '.join(sorted(kinds))}) share one (from, to, departure)")
+        elif len(sig) > 1:
+            minority = min(sig.values(), key=len)[0]
+            r.fail(f"{util.short_fn(g)}: leg queries", f"`{minority['callee'].split('::')[-1]}` is asked for a different (from, to, departure) than the other routing queries of the same leg: "
+                   "distance, driving time and cost of a reported leg no longer describe the same trip", F.loc(g, minority["ln"]))
+        else:
+            r.fail(f"{util.short_fn(g)}: leg queries", f"the leg is no longer described by both distance and duration queries (found {sorted(kinds)})", F.loc(g))
+    if n < 1:
+        raise AnchorError("no routing query in create_tour")
+
+
+def g1_tag_positions(F, r):
+    """place tags are indexed by the position of the place in the task (the writer looks the tag up by place index)"""
+    gs = F.find1("job_reader::get_single")
+    fn = F.fns[gs]
+    en = [(bi, t) for bi, t in mir.calls(fn) if t["callee"].endswith("Iterator::enumerate")]
+    setters = [t for g in [gs] + [x for x in F.fns if x.startswith("vrp_pragmatic::format::problem::job_reader::get_single")] for _, t in mir.calls(F.fns[g]) if t["callee"].endswith("set_place_tags")]
+    if not en:
+        r.fail("get_single: tag index", "place tags are no longer paired with their place index by enumerate()", F.loc(gs))
+        return
+    for bi, t in en:
+        ty = t["ga"][0] if t["ga"] else ""
+        bad = [d.split("::")[1] for d in DROPPING_TYPES if d in ty]
+        if bad:
+            r.fail("get_single: tag index", f"enumerate() runs after an element-dropping adapter ({', '.join(bad)}): the stored index is the ordinal among tagged places, not the place index "
+                   "the solution writer looks up — the reported tag belongs to another place", F.loc(gs, t["ln"]))
+        else:
+            r.ok("get_single: tag index", "enumerate() over all places (no filtering before it)")
+    if setters:
+        r.ok("get_single: set_place_tags", "tags stored in the job dimensions")
+
+
 def run(ctx):
     ctx.explanation = (
         "Structure of the accounting formulas: the pragmatic Statistic sum is field-wise over every scalar field of Statistic and Timing and the overall "
@@ -178,4 +255,7 @@ def run(ctx):
     ctx.assumptions += ["parameter/local names distance/duration/waiting/... and the Costs field names act as unit declarations; unknown units are silent"]
     ctx.run("C03-H1", "Statistic::add is a field-wise sum over all fields; overall statistic = fold over tours", h1_statistic_sum, floor=10)
     ctx.run("C03-H2", "per-leg accumulation keeps statistic fields apart", h2_leg_accumulation, floor=8)
+    ctx.run("C03-R1", "report / check / schedule code uses exact routing queries only (no `_approx`)", r1_exact_routing_only, floor=1)
+    ctx.run("C03-L1", "distance, duration and cost of a reported leg are queried for the same (from, to, departure)", l1_leg_queries_agree, floor=1)
+    ctx.run("C03-G1", "place tags are indexed by place position", g1_tag_positions, floor=1)
     ctx.run("C03-U1", "cost coefficients multiply quantities of their own unit", u1_units, floor=4)
